@@ -17,7 +17,7 @@ RULE = ("A case is a history over up to 3 models (boolean_any profile with attri
         "independently rebuilt twin of the model and must leave the snapshot unchanged. Non-trivial: >=2 different models "
         "on one operation object, or attribute generation with a mixed domain or with pre-existing attributes.")
 ASSUMPTIONS = [
-    "float range bounds are plain decimals with |x| >= 1e-4 or 0 and <= 1e6 (the library derives the rounding digits from str(float))",
+    "float range bounds are plain decimals (up to 12 fraction digits, ranges as narrow as one unit in the last place or degenerate) with |x| >= 1e-4 or 0 and <= 1e6 (the library derives the rounding digits from str(float))",
     "distributional claims (uniformity, reachability of bounds) are not decided - only membership, integer-ness and 'exactly one attribute'",
     "element membership is type-strict (True is not 1); a number inside an integer-bounded range must be an int",
 ]
@@ -45,8 +45,23 @@ def _dec(draw):
     """plain-decimal float, |x| >= 1e-4 or 0, as a string"""
     sign = draw(st.sampled_from(["", "", "-"]))
     whole = draw(st.integers(0, 999))
-    frac = draw(st.sampled_from(["0", "5", "25", "125", "0625", "1", "3", "7", "01", "001", "0001", "9999"]))
+    frac = draw(st.one_of(st.sampled_from(["0", "5", "25", "125", "0625", "1", "3", "7", "01", "001", "0001", "9999"]),
+                          st.text(alphabet="0123456789", min_size=5, max_size=12)))
+    if whole == 0 and frac[:4] == "0000"[:len(frac[:4])] and set(frac) != {"0"}:
+        frac = "1" + frac[1:]            # keep |x| >= 1e-4: str() of smaller floats has an exponent (see ASSUMPTIONS)
     return f"{sign}{whole}.{frac}"
+
+
+def _narrow(draw):
+    """Two plain decimals with many digits that differ only in the last places (a range narrower than 1e-6), or equal."""
+    whole = draw(st.integers(0, 99))
+    head = draw(st.text(alphabet="0123456789", min_size=5, max_size=9))
+    if whole == 0 and head[:4] == "0000":
+        head = "1" + head[1:]
+    t1 = draw(st.text(alphabet="0123456789", min_size=1, max_size=2))
+    t2 = draw(st.one_of(st.just(t1), st.text(alphabet="0123456789", min_size=1, max_size=2)))
+    sign = draw(st.sampled_from(["", "", "-"]))
+    return sorted([float(f"{sign}{whole}.{head}{t1}"), float(f"{sign}{whole}.{head}{t2}")])
 
 
 @st.composite
@@ -63,7 +78,7 @@ def domains(draw):
             ranges.append([lo, lo + draw(st.integers(0, 20))])
     if kind in ("float-ranges", "mixed") and (kind != "mixed" or not ranges or draw(st.booleans())):
         for _ in range(draw(st.integers(1, 2))):
-            a, b = sorted([float(_dec(draw)), float(_dec(draw))])
+            a, b = _narrow(draw) if draw(st.integers(0, 3)) == 0 else sorted([float(_dec(draw)), float(_dec(draw))])
             lo = {"$float": repr(a)}
             hi = {"$float": repr(b)}
             if draw(st.integers(0, 5)) == 0:          # int/float mixed bounds
